@@ -142,6 +142,9 @@ struct ZFileOpts {
     size_t max_chunks = 8, max_chunk = 3000; int force_comp = -1;       // -1 any, else ZCK_COMP_*
     bool allow_dict = true, allow_uncomp = true, allow_dups = true, allow_ref_writer = true, allow_empty = true;
     int force_chunk_hash = -1;
+    // 1-in-big_rate files get one chunk that crosses the library's internal block sizes (32 KiB copy/scan/read buffer; with
+    // big_huge also zstd's 128 KiB block): stored sizes of 32768+-2, 33000..70000, 131072+-2, 132000..200000 bytes.  0 = never.
+    unsigned big_rate = 0; bool big_huge = false;
 };
 static inline Bytes chunk_content(Ctx &c, size_t maxlen) {
     uint64_t k = c.draw(5); size_t n = 1 + (k == 0 ? c.draw(3) : k <= 2 ? c.draw(std::min<size_t>(maxlen, 200) - 1) : c.draw(maxlen - 1));
@@ -196,6 +199,16 @@ static inline ZParams zparams(Ctx &c, const ZFileOpts &o = ZFileOpts()) {
     if (q.uncomp && (q.chunk_hash == 0 || q.chunk_hash == 3 || q.chunk_hash == -1)) q.chunk_hash = 1 + (int)c.draw(1);
     q.by_ref = o.allow_ref_writer && c.rarely(3);
     if (q.by_ref) q.level = 1 + (int)c.draw(5); else if (q.comp == ZCK_COMP_ZSTD && c.boolean()) q.level = (int)c.draw(9);
+    if (c.gver >= 2 && o.big_rate && !q.chunks.empty() && c.rarely(o.big_rate)) {
+        size_t idx = c.boolean() ? q.chunks.size() - 1 : c.pick(q.chunks.size());
+        uint64_t k = c.draw(o.big_huge ? 5 : 2); size_t n;
+        switch (k) { case 0: n = 32766 + c.draw(4); break; case 1: n = 33000 + c.draw(37000); break; case 2: n = 32768 * 2 - 1 + c.draw(2); break;
+                     case 3: n = 131070 + c.draw(4); break; case 4: n = 132000 + c.draw(68000); break; default: n = 262143 + c.draw(2); break; }
+        Bytes b(n); uint64_t seed = c.draw(0xffff);
+        // incompressible (stored size ~ size, so the stored chunk crosses the block size too) or mildly compressible
+        if (c.chance(2, 3)) fill_random(b.data(), n, seed); else { pbt::Rng r(seed); for (auto &x : b) x = (uint8_t)(r.next() % 23); }
+        q.chunks[idx] = b; if (q.level > 3) q.level = 3;
+    }
     return q;
 }
 static inline ZFile zfile(Ctx &c, const ZFileOpts &o = ZFileOpts()) { return zfile_build(c, zparams(c, o)); }
